@@ -11,6 +11,7 @@ import datetime as dt
 from asyncio.selector_events import BaseSelectorEventLoop
 from collections.abc import Iterable
 from logging import Logger
+from reprlib import recursive_repr
 from typing import Any, Callable, Coroutine, Optional
 
 import typeguard as tg
@@ -75,6 +76,7 @@ class Scheduler(BaseScheduler[Job, Callable[..., Coroutine[Any, Any, None]]]):
 
         self._jobs: dict[Job, aio.Task[None]] = {}
 
+    @recursive_repr()
     def __repr__(self) -> str:
         return "scheduler.asyncio.scheduler.Scheduler({0}, jobs={{{1}}})".format(
             ", ".join((repr(elem) for elem in (self.__tzinfo,))),
